@@ -96,8 +96,10 @@ func VerifC14Estimate() {
 	maxLen := verifParam("maxActionBytes", 1<<16, 1<<20)
 	r := hDefaultRules()
 	r.window = 60000
-	if verifChoose("chainID", 2) == 1 {
-		r.chainID = ids.ID{1}
+	// a non-zero chain ID (34 more encoded bytes: the tight case); the thorough tier also runs the zero chain ID
+	r.chainID = ids.ID{1}
+	if verifChoose("chainID", verifParam("chainIDKinds", 1, 2)) == 1 {
+		r.chainID = ids.Empty
 	}
 	addr := codec.Address{1}
 	n := 1 + verifChoose("actions", maxN)
